@@ -467,6 +467,37 @@ def r06_7(ctx, A, chk):
     ctx.check(R, bool(sites) and not extra, 'single-source', 'ordering error constructed outside the check (%d sites in the check)' % len([s_ for s_ in sites if s_ not in extra]))
 
 
+def r06_8(ctx, A, chk):
+    """every item a front end draws from its iterator / stream is offered to the builder: the contract (accept, or reject with the
+    ordering error) is the builder's to apply, a front end that filters items first applies another one"""
+    R = ctx.rule('R06.8', 'every item drawn by a looping front end is offered to add / insert in the same iteration', floor=1)
+    lib = ctx.lib
+    cg = CallGraph(lib)
+    n = 0
+    for name in RAW_FRONTS + SET_FRONTS + MAP_FRONTS:
+        f = lib.fn(name)
+        if f is None or not f.loops():
+            continue
+        loops = f.loops()
+        for p in explore(f, max_visits=1, havoc=True, limit=2000):
+            if p.end != 'cut':
+                continue
+            body = loops.get(p.blocks[-1], set())
+            nx = [d for d in p.cdecisions() if d[2][0] == 'discr' and is_call(d[2][1], '::next') and d[3] == 1 and d[1] in body]
+            if not nx:
+                continue
+            k_n = nx[-1][0]
+            offered = False
+            for (k, bid, callee, args, t) in path_calls(p, expand=False):
+                if k > k_n and isinstance(callee, str) and (callee == chk.path or (callee in lib.fns and chk.path in cg.reachable([callee]))):
+                    offered = True
+            n += 1
+            ctx.check(R, offered, 'item-offered:' + name, '%s has an iteration that draws an item and goes on to the next one without offering it to the builder (%s): keys are dropped, and the ordering contract is no longer applied to the sequence the caller supplied' % (
+                name.rsplit('::', 1)[-1], fmt(p.decisions[-1][2])[:80] if p.decisions else ''), fn=f)
+    if n == 0:
+        ctx.undecided(R, 'item-offered', 'no looping front end with a recognisable item draw')
+
+
 def run(ctx):
     lib = ctx.lib
     A = Anchors(lib)
@@ -486,4 +517,5 @@ def run(ctx):
     ctx.step(r06_5, ctx, A, add, ins)
     ctx.step(r06_6, ctx, A, chk)
     ctx.step(r06_7, ctx, A, chk)
+    ctx.step(r06_8, ctx, A, chk)
     ctx.notes.append({'ordering_check': chk.path, 'last_key_field': lastf})
